@@ -219,11 +219,11 @@ def run(rep, model, tier, seed):
     ex = []
     for n in range(1, depth + 1):
         for w in itertools.product(alpha, repeat=n):
-            if tier == "quick" and n == depth and r.random() > 0.125:
+            if n == depth and r.random() > (0.125 if tier == "quick" else 0.2):
                 continue
             ex.append(list(w))
     run_events(rep, model, ex, "exhaustive", r)
-    rep.exhaustive.append("sequences up to length %d over a 17-event alphabet (length %d sampled 1:8 in quick)" % (depth, depth))
+    rep.exhaustive.append("sequences up to length %d over a 17-event alphabet (length %d sampled 1:8 in quick, 1:5 in thorough)" % (depth, depth))
     rnd = []
     for _ in range(60 if tier == "quick" else 1500):
         evs = []
